@@ -95,6 +95,15 @@ func New(mode string, seed int64, nstr int) *Table {
 }
 
 // NewTF builds a table whose strings are tree-form safe.
+// NewGen builds a table with n generated plain keys k000 < k001 < ... (large objects).
+func NewGen(n int) *Table {
+	t := &Table{Name: "gen", Ints: map[int]int{}, Floats: map[int]float64{}}
+	for i := 0; i < n; i++ {
+		t.Strs = append(t.Strs, fmt.Sprintf("k%03d", i))
+	}
+	return t.finish()
+}
+
 func NewTF(seed int64, nstr int) *Table {
 	rng := rand.New(rand.NewSource(seed))
 	t := &Table{Name: "tf", Ints: map[int]int{}, Floats: map[int]float64{}}
